@@ -26,7 +26,7 @@ deriving DecidableEq, Repr
 
 structure St where
   awaiting : List TrxB := []
-  everListed : List Bytes := []         -- addresses that have an "address-…" list key in the cache
+  lists : List (Bytes × List (Option Bytes)) := []   -- "address-…" keys: token lists as in CModel.AwaitCache
   sealed : List TrxB := []              -- transactions of the vertices in the ledger
   chal : List (Bytes × Bytes × Bool) := []   -- address, blob, fresh
   flash : List Bytes := []
@@ -46,6 +46,7 @@ inductive Op
   | history (r : SignedHash)
   | balance (r : SignedHash)
   | saved (r : SignedHash)
+  | ledgerDrop (hs : List Bytes)   -- the ledger discarded unconfirmed tips that failed validation (C01)
 deriving Repr
 
 /-- what a read returns -/
@@ -65,6 +66,23 @@ def sealRej (s : St) (t : TrxB) (ledgerOk : Bool) : Option St :=
   if isSealed s t.hash || !ledgerOk then none
   else some { s with sealed := t :: s.sealed, flash := s.flash.filter (fun a => a != t.issuer) }
 
+/-! the per-address hash lists of cache.go at the token level (same definitions as `CModel.AwaitCache`,
+over byte-string hashes and addresses; `none` is an empty token, `[none]` the empty value) -/
+abbrev Tokens := List (Option Bytes)
+def getList (s : St) (a : Bytes) : Option Tokens := (s.lists.find? (·.1 == a)).map (·.2)
+def setList (s : St) (a : Bytes) (v : Tokens) : St := { s with lists := (a, v) :: s.lists.filter (·.1 != a) }
+def delList (s : St) (a : Bytes) : St := { s with lists := s.lists.filter (·.1 != a) }
+def tAdd (v : Tokens) (h : Bytes) : Tokens := if v == [none] then [some h] else v ++ [some h]
+def tRemove (v : Tokens) (h : Bytes) : Tokens := none :: v.filter (· != some h)
+def saveAddr (s : St) (a h : Bytes) : St :=
+  match getList s a with
+  | none => setList s a [some h]
+  | some v => setList s a (tAdd v h)
+def removeAddr (s : St) (a h : Bytes) : St :=
+  match getList s a with
+  | none => s
+  | some v => if v == [none] then delList s a else setList s a (tRemove v h)
+
 inductive RemoveRes | notFound | unauthorized | removed (t : TrxB) (s : St)
 
 /-- cache.RemoveAwaitedTransaction -/
@@ -72,14 +90,32 @@ def removeAwaiting (s : St) (h addr : Bytes) : RemoveRes :=
   match findAwaiting s h with
   | none => .notFound
   | some t => if t.receiver != addr then .unauthorized
-              else .removed t { s with awaiting := s.awaiting.filter (·.hash != h) }
+              else .removed t ([t.issuer, t.receiver].foldl (fun s x => removeAddr s x h)
+                                { s with awaiting := s.awaiting.filter (·.hash != h) })
 
 /-- cache.SaveAwaitedTransaction -/
 def saveAwaiting (s : St) (t : TrxB) : Option St :=
   match findAwaiting s t.hash with
   | some _ => none
-  | none => some { s with awaiting := s.awaiting ++ [t],
-                          everListed := t.receiver :: t.issuer :: s.everListed }
+  | none =>
+    let addrs := if t.issuer == t.receiver then [t.receiver] else [t.issuer, t.receiver]
+    some (addrs.foldl (fun s a => saveAddr s a t.hash) { s with awaiting := s.awaiting ++ [t] })
+
+/-- cache.ReadTransactions: `none` = ErrTransactionNotFound; listed hashes without a stored transaction
+are dropped from the list on the way. -/
+def readAwaiting (s : St) (a : Bytes) : St × Option (List TrxB) :=
+  match getList s a with
+  | none => (s, none)
+  | some v =>
+    if v == [none] then (delList s a, none) else
+    let hs := v.filterMap id
+    let found := hs.filterMap (findAwaiting s)
+    let missing := hs.filter fun h => (findAwaiting s h).isNone
+    let s' := missing.foldl (fun s h =>
+      match getList s a with
+      | none => s
+      | some w => if w == [none] then s else setList s a (tRemove w h)) s
+    (s', some found)
 
 /-- dataprovider ValidateData -/
 def validChallenge (s : St) (addr blob : Bytes) : Bool :=
@@ -122,11 +158,21 @@ def reject (c : Cfg) (s : St) (r : SignedHash) (ledgerOk : Bool) : St × Resp :=
       | none => (s1, .errProcessing)
       | some s2 => (s2, .ok)
 
-def waiting (c : Cfg) (s : St) (r : SignedHash) : Resp × Out :=
-  if !validChallenge s r.address r.data then (.errVerification, [])
-  else if !verifySH c r then (.errVerification, [])
-  else if !s.everListed.contains r.address then (.errProcessing, [])
-  else (.ok, s.awaiting.filter (involves r.address))
+def waiting (c : Cfg) (s : St) (r : SignedHash) : St × Resp × Out :=
+  if !validChallenge s r.address r.data then (s, .errVerification, [])
+  else if !verifySH c r then (s, .errVerification, [])
+  else match readAwaiting s r.address with
+    | (s', none) => (s', .errProcessing, [])
+    | (s', some ts) => (s', .ok, ts)
+
+/-- whether the call gets as far as CreateLeaf (used by the driver to check the observed ledger verdict) -/
+def reachesLedger (c : Cfg) (s : St) : Op → Bool
+  | .propose t _ => verifyIssuer c.o t && t.data.isEmpty
+  | .confirm t _ => verifyIssuerReceiver c.o t &&
+      (match removeAwaiting s t.hash t.receiver with | .removed _ _ => true | _ => false)
+  | .reject r _ => verifySH c r &&
+      (match removeAwaiting s r.data r.address with | .removed _ _ => true | _ => false)
+  | _ => false
 
 /-- flash.HasAddress: reports and then remembers the address -/
 def throttle (s : St) (a : Bytes) : St × Bool := ({ s with flash := a :: s.flash }, s.flash.contains a)
@@ -162,10 +208,11 @@ def step (c : Cfg) (s : St) : Op → St × Resp × Out
   | .reject r lo => let (s', x) := reject c s r lo; (s', x, [])
   | .data a b => (provideData s a b, .ok, [])
   | .expire => (expireAll s, .ok, [])
-  | .waiting r => let (x, o) := waiting c s r; (s, x, o)
+  | .waiting r => waiting c s r
   | .history r => history c s r
   | .balance r => let (s', x) := balance c s r; (s', x, [])
   | .saved r => let (x, o) := saved c s r; (s, x, o)
+  | .ledgerDrop hs => ({ s with sealed := s.sealed.filter fun t => !hs.contains t.hash }, .ok, [])
 
 def run (c : Cfg) : St → List Op → St
   | s, [] => s
